@@ -10,6 +10,10 @@ R07.4 the calculator's undo bookkeeping is restored on the failure path
 
 Added in build round 2 (see DESIGN.md section 3, round-2 table):
 R07.5 Calculator.change takes the 1-deep undo shortcut only when ALL changes of the last step are reversed in this one (for/else with break on a missing ...
+
+Added later in build rounds 2-3 (see DESIGN.md section 3, round-2/3 table):
+R07.6 no name bound by `except ... as NAME` is read after its handler in the recalculation package: Python unbinds it when the handler ends, so the read ...
+R07.7 a leaf definition answers questions about its current settings from the primary state (self.assignments), not from what update() derives from it ...
 """
 
 from __future__ import annotations
